@@ -5,16 +5,22 @@ from .. import common, tlc
 _ALL = [('RSocketMC', 'RSocketMC_%s.cfg' % k, 900) for k in
         ('rr', 'rr_s', 'stream', 'stream_s', 'stream_lib', 'channel_nopub', 'channel_lib', 'channel')]
 _SMALL = [c for c in _ALL if c[1] != 'RSocketMC_channel.cfg']
+# the same with fragmentation: an element / a response is two fragments long, the sender writes one fragment per step
+_FRAG = [('RSocketMC', 'RSocketMC_%s.cfg' % k, 900) for k in ('rr_frag', 'stream_frag', 'stream_lib_frag', 'channel_nopub_frag', 'stream_frag_witness')]
+_FRAG_BIG = [('RSocketMC', 'RSocketMC_channel_frag.cfg', 1800)]
 # two interactions side by side on one connection (shared sender and link): cross-stream independence at design level
 # the library's request-channel AS IMPLEMENTED where it deviates from the design (open findings F17a/b/c): NoClauseFails must be
 # REFUTED - the day it holds, the findings are obsolete and the deviation in RSocketMC.tla (AsImplemented) is stale
 _IMPL = [('RSocketMC', 'RSocketMC_channel_impl.cfg', 900)]
-_EXPECT_REFUTED = {'RSocketMC_channel_impl.cfg': 'NoClauseFails'}
+_EXPECT_REFUTED = {'RSocketMC_channel_impl.cfg': 'NoClauseFails',
+                   # vacuity control: the fragmented model does reach "the last fragment arrives after the receiver finished the stream"
+                   'RSocketMC_stream_frag_witness.cfg': 'FragmentNeverOrphaned'}
 _TWO = [('RSocketMC2', 'RSocketMC2_%s.cfg' % k, 900) for k in ('rr_rr', 'rr_stream', 'stream_rr_s', 'stream_stream', 'streamlib_rr')]
 CONFIGS = {
-    'C01': _ALL + _TWO, 'C07': _ALL, 'C08': _ALL + _IMPL, 'C09': _ALL + _TWO, 'C10': _ALL + _TWO + _IMPL,
+    'C01': _ALL + _TWO + _FRAG + _FRAG_BIG, 'C07': _ALL + _FRAG, 'C08': _ALL + _IMPL + _FRAG, 'C09': _ALL + _TWO + _FRAG,
+    'C10': _ALL + _TWO + _IMPL + _FRAG + _FRAG_BIG, 'C03': _FRAG,
     'C06': [c for c in _ALL if 'lib' in c[1] or c[1] == 'RSocketMC_stream.cfg'],
-    'C05': _SMALL + _TWO, 'C11': _SMALL, 'C12': _SMALL,
+    'C05': _SMALL + _TWO + _FRAG, 'C11': _SMALL, 'C12': _SMALL,
 }
 
 
@@ -30,7 +36,7 @@ def run_for(v, prop):
     thorough = common.tier() == 'thorough'
     cfgs = CONFIGS.get(prop, [])
     if not thorough:
-        cfgs = [c for c in cfgs if c[1] != 'RSocketMC_channel.cfg']
+        cfgs = [c for c in cfgs if c[1] not in ('RSocketMC_channel.cfg', 'RSocketMC_channel_frag.cfg')]
 
     def one(c):
         module, cfg, timeout = c
@@ -53,6 +59,8 @@ def run_for(v, prop):
         if thorough and module == 'RSocketMC':
             cov = r.coverage()
             kind = 'rr' if '_rr' in cfg else ('stream' if '_stream' in cfg else 'channel')
+            if 'witness' in cfg:
+                continue
             zero = sorted(a for a, (d, t) in cov.items() if t == 0 and a not in _EXPECTED_UNUSED[kind]
                           and not ('lib' in cfg and a in ('PubComplete', 'PubError')))
             if zero:
